@@ -319,6 +319,56 @@ def exit_model_validation(ctx):
     plan4 = {"seed": 0, "run": "exitmodel", "hashseed": 0, "selection": dict(base_sel, argv=["--no-such-option"]), "env": {"listdir": {}, "extra_entries": {}, "clock": ["2026-01-01T00:00:00"], "git": "exit128", "git_repo": "norepo", "stdout_mode": "block", "invoked_via_symlink": True}, "faults": [], "toolchain": {"a": ["g++", "c++14"]}, "probe": {}}
     s, d = ctx.pool.run(plan4)
     cases.append({"case": "usage error", "real": r.returncode, "sim": s["status"]})
+    # 8b. fd 1 is a non-blocking pipe whose reader lags (a parent that set O_NONBLOCK on a shared
+    #     pipe: ssh, node-based task runners): once the pipe is full every write(2) fails with
+    #     EAGAIN.  Buffered sys.stdout: BlockingIOError inside print.  Unbuffered sys.stdout
+    #     (python -u, PYTHONUNBUFFERED=1): io.FileIO.write returns None, CPython's text layer does
+    #     not look at it - whether that ends in a silent truncation is up to the tool.
+    import fcntl
+
+    for label, unbuf in (("buffered", False), ("unbuffered", True)):
+        rd, wr = os.pipe()
+        fcntl.fcntl(wr, fcntl.F_SETFL, fcntl.fcntl(wr, fcntl.F_GETFL) | os.O_NONBLOCK)
+        try:
+            r = _real_run_shadow(args, stdout=wr, env_extra=({"PYTHONUNBUFFERED": "1"} if unbuf else None))
+        finally:
+            os.close(wr)
+        got = b""
+        while True:  # the child has exited (it never blocks): now drain the pipe
+            chunk = os.read(rd, 1 << 16)
+            if not chunk:
+                break
+            got += chunk
+        os.close(rd)
+        s, d = simulate({"stdout_mode": "unbuffered" if unbuf else "block"}, [{"op": "write", "where": "at_byte", "at_byte": 65536, "kind": "EAGAIN", "persistent": True}])
+        cases.append({"case": "stdout=non-blocking pipe, reader lags (%s)" % label, "real": r.returncode, "sim": s["status"], "real_len": len(got), "sim_len": len(d or b""), "bytes_equal": (len(got) < 100000) == (len(d or b"") < 100000)})
+    # 9. the locale's text encoding.  A --version-id that is not ASCII, under a UTF-8 locale and
+    #    under a plain C locale with CPython's UTF-8 coercion switched off (ASCII + surrogateescape
+    #    on argv and stdout: the bytes pass through unchanged).
+    sel5 = dict(base_sel, version_id="v1-M\u00fcller-\u00b5")
+    utf8_env = {"LC_ALL": "C.UTF-8", "LANG": "C.UTF-8", "PYTHONUTF8": "0", "PYTHONCOERCECLOCALE": "0"}
+    ascii_env = {"LC_ALL": "C", "LANG": "C", "PYTHONUTF8": "0", "PYTHONCOERCECLOCALE": "0"}
+    drop = ("PYTHONIOENCODING", "LC_CTYPE", "LC_MESSAGES")
+    for label, real_env, enc in (("UTF-8 locale", utf8_env, "utf-8"), ("C locale without UTF-8 coercion", ascii_env, "ascii")):
+        r = _real_run_shadow(_env.argv_of(sel5), stdout=subprocess.PIPE, env_extra=real_env, drop_env=drop)
+        s, d = simulate({"encoding": enc}, [], sel=sel5)
+        cases.append({"case": "non-ASCII --version-id, %s" % label, "real": r.returncode, "sim": s["status"], "bytes_equal": strip_year(r.stdout) == strip_year(d)})
+    # 10. ... and a user's own header with non-ASCII text in it given as a main file: copied through
+    #     under UTF-8, a UnicodeDecodeError (status 1) in the C locale
+    from sim import usermain as _um
+
+    um = {"style": "quoted", "unit": base_sel["units"][0], "non_ascii": True}
+    real_um = os.path.join(ctx.pool.scratch, "acme_units.hh")
+    with open(real_um, "w", encoding="utf-8") as f:
+        f.write(_um.text(ctx.tree, um))
+    sel6 = dict(base_sel, user_main=um)
+    real_args = [real_um if a == _um.PATH else a for a in _env.argv_of(sel6)]
+    for label, real_env, enc in (("UTF-8 locale", utf8_env, "utf-8"), ("C locale without UTF-8 coercion", ascii_env, "ascii")):
+        r = _real_run_shadow(real_args, stdout=subprocess.PIPE, env_extra=real_env, drop_env=drop)
+        s, d = simulate({"encoding": enc}, [], sel=sel6)
+        same = _oracle.code_lines(r.stdout or b"") == _oracle.code_lines(d or b"")
+        cases.append({"case": "non-ASCII user header as main file, %s" % label, "real": r.returncode, "sim": s["status"], "bytes_equal": same})
+    os.unlink(real_um)
     agreed = 0
     agreed_exact = 0
     comparable = 0
